@@ -49,6 +49,10 @@ pub struct Compiler {
     /// Each class being compiled pushes its brand ID so inner code can access private fields
     class_context_stack: Vec<ClassContext>,
 
+    /// In the constructor of a derived class: the instance member initialisers, which run
+    /// right after `super(...)` has returned the instance
+    derived_member_inits: Option<Rc<DerivedMemberInits>>,
+
     /// Counter for generating unique class brand IDs
     next_class_brand: u32,
 
@@ -58,6 +62,14 @@ pub struct Compiler {
 
     /// Source file path for stack traces (propagated to all nested chunks)
     source_file: Option<String>,
+}
+
+/// Instance members of a derived class that are initialised when `super(...)` returns
+struct DerivedMemberInits {
+    fields: Vec<crate::ast::ClassProperty>,
+    private_fields: Vec<crate::ast::ClassProperty>,
+    private_methods: Vec<crate::ast::ClassMethod>,
+    class_brand: u32,
 }
 
 /// Context for a class being compiled (for private field handling)
@@ -118,6 +130,7 @@ impl Compiler {
             hoisted_functions: FxHashSet::default(),
             loop_var_redirects: FxHashMap::default(),
             class_context_stack: Vec::new(),
+            derived_member_inits: None,
             next_class_brand: 0,
             track_completion: false,
             source_file: None,
